@@ -19,6 +19,8 @@ from .workloads import CANARY
 VERIF = os.path.dirname(os.path.dirname(os.path.abspath(__file__)))
 REPO = os.environ.get('DSIM_REPO', '/repo')
 NPROC = int(os.environ.get('DSIM_JOBS', '16'))
+REPLAYS = os.environ.get('DSIM_REPLAYS_DIR') or os.path.join(VERIF, 'replays')
+EVIDENCE = os.environ.get('DSIM_EVIDENCE_DIR') or os.path.join(VERIF, 'evidence')
 
 # class choice biased to overlap in lazily filled tables
 PAIRS_FIXED = [('note', 'note'), ('note', 'rest'), ('direction', 'note'), ('score-partwise', 'part'), ('harmony', 'note'),
@@ -155,9 +157,9 @@ def minimise_and_write(z, pair_id, A, B, classes, sch, r, clause, detail):
     rep = {'property': 'C20', 'clause': clause, 'mode': 'threads', 'pair': pair_id, 'programs': [A, Bm], 'schedule': sched,
            'classes': classes, 'original_schedule': sch, 'switch_points': r['switches'],
            'observation': {'clause': clause, 'detail': detail}, 'dsim_version': 1}
-    os.makedirs(os.path.join(VERIF, 'replays'), exist_ok=True)
+    os.makedirs(REPLAYS, exist_ok=True)
     name = 'C20-%s.json' % hashlib.sha256(json.dumps([clause, A, Bm, sched], sort_keys=True, default=str).encode()).hexdigest()[:16]
-    path = os.path.join(VERIF, 'replays', name)
+    path = os.path.join(REPLAYS, name)
     with open(path, 'w') as f:
         json.dump(rep, f, indent=1, default=str)
     return {'clause': clause, 'replay': path, 'detail': detail, 'len': len(A) + len(Bm), 'schedule': sched}
@@ -202,7 +204,12 @@ def run(prop, tier, seed):
             ea = rng.choice(spec.ELEMENT_CONTENT_ELEMENTS)
             eb = ea if rng.random() < 0.5 else rng.choice(spec.ELEMENT_CONTENT_ELEMENTS)
         A = gen_program(z, hash64(seed, 'C20', i, 'A'), ea, 'a0')
-        B = gen_program(z, hash64(seed, 'C20', i, 'B'), eb, 'b0')
+        if i % 2 == 0:
+            # the same program in both threads: whatever A is initialising, B needs too
+            B = [dict(op) for op in A]
+            eb = ea
+        else:
+            B = gen_program(z, hash64(seed, 'C20', i, 'B'), eb, 'b0')
         classes = sorted({ea, eb, 'note', 'pitch'})
         pairs.append((i, A, B, classes, ea, eb))
     tasks = []
@@ -212,17 +219,21 @@ def run(prop, tier, seed):
         solo = z.run(job([A], {'kind': 'none'}, classes, canary=False, record_hot=True))
         n = solo['per_thread_lines']['T0']
         hot = solo.get('hot', [])
+        first = solo.get('first', [])
+        r2 = random.Random(hash64(seed, 'C20', i, 'k'))
         if P.cfg[tier].get('all_k'):
             ks = list(range(1, n + 1))
             exhaustive = True
         else:
+            # complete sweep of the first execution of every (file, line, owner class) - the first use of each
+            # class, where lazily initialised shared state is filled - plus a seeded sample of the rest
             want = P.cfg[tier]['k_per_pair']
-            r2 = random.Random(hash64(seed, 'C20', i, 'k'))
-            ks = set()
+            ks = set(first)
             if hot:
                 for _ in range(want // 2):
                     ks.add(r2.choice(hot))
-            while len(ks) < min(want, n):
+            target = min(n, len(ks) + want // 2)
+            while len(ks) < target:
                 ks.add(r2.randint(1, n))
             ks = sorted(ks)
             exhaustive = False
@@ -231,6 +242,8 @@ def run(prop, tier, seed):
             scheds.append({'kind': 'pct', 'seed': hash64(seed, 'C20', i, 'pct', j), 'depth': r2_depth(seed, i, j),
                            'p': 0.0005, 'p_hot': 0.02})
         per_pair[i] = {'elements': [ea, eb], 'lines_of_A_alone': n, 'hot_lines': len(hot), 'single_preemptions': len(ks),
+                       'first_executions_of_a_line_per_owner_class': len(first), 'first_execution_sweep_complete': True,
+                       'same_program_in_both_threads': i % 2 == 0,
                        'exhaustive_single_preemption': exhaustive, 'ops': [len(A), len(B)]}
         total_sched += len(scheds)
         chunk = max(20, len(scheds) // (NPROC * 2) or 1)
@@ -302,11 +315,11 @@ def run(prop, tier, seed):
     harness_bad = bool(agg['errors']) or agg['runs'] == 0
     if harness_bad:
         ev['coverage']['harness_errors'] = agg['errors'][:5]
-    os.makedirs(os.path.join(VERIF, 'evidence'), exist_ok=True)
-    tmp = os.path.join(VERIF, 'evidence', '.C20.tmp')
+    os.makedirs(EVIDENCE, exist_ok=True)
+    tmp = os.path.join(EVIDENCE, '.C20.tmp')
     with open(tmp, 'w') as f:
         json.dump(ev, f, indent=1, default=str)
-    os.replace(tmp, os.path.join(VERIF, 'evidence', 'C20.json'))
+    os.replace(tmp, os.path.join(EVIDENCE, 'C20.json'))
     print('dsim %s %s seed=%d: %d schedules over %d program pairs, %d with a switch, %d distinct interleavings, %d pre-emption sites, %.1fs' % (
         prop, tier, seed, agg['runs'], len(pairs), agg['fired'], len(agg['interleavings']), len(agg['switch_sites']), wall))
     for l in lines:
